@@ -2464,8 +2464,9 @@ SDIgetcoordvar(NC     *handle, /* IN: file handle */
     len  = dim->name->len;
     dp   = (NC_var **)handle->vars->values;
     for (unsigned ii = 0; ii < handle->vars->count; ii++, dp++) {
-        /* eliminate vars with rank > 1, coord vars only have rank 1 */
-        if ((*dp)->assoc->count == 1)
+        /* eliminate vars with rank > 1, coord vars only have rank 1 and are defined on their
+           dimension (a variable left behind by SDsetdimname may carry the name of another one) */
+        if ((*dp)->assoc->count == 1 && ((NC_dim **)handle->dims->values)[(*dp)->assoc->values[0]] == dim)
             if (len == (*dp)->name->len && strncmp(name->values, (*dp)->name->values, (size_t)len) == 0)
                 /* only proceed if the file is a netCDF file (bugz 1644)
                 or if this variable is a coordinate var or when
@@ -2928,8 +2929,8 @@ SDdiminfo(int32  id,   /* IN:  dimension ID */
         len = dim->name->len;
         dp  = (NC_var **)handle->vars->values;
         for (int ii = 0; ii < handle->vars->count; ii++, dp++) {
-            /* eliminate vars with rank > 1, coord vars only have rank 1 */
-            if ((*dp)->assoc->count == 1) {
+            /* eliminate vars with rank > 1, coord vars only have rank 1 and are defined on this dimension */
+            if ((*dp)->assoc->count == 1 && ((NC_dim **)handle->dims->values)[(*dp)->assoc->values[0]] == dim) {
                 /* check if this variable matches the searched name */
                 if (len == (*dp)->name->len && strncmp(name, (*dp)->name->values, (*dp)->name->len) == 0) {
                     if (handle->file_type == HDF_FILE) /* HDF file */
@@ -3014,8 +3015,8 @@ SDgetdimstrs(int32 id, /* IN:  dataset ID */
         namelen = (int32)strlen(name);
         dp      = (NC_var **)handle->vars->values;
         for (int i = 0; i < handle->vars->count; i++, dp++) {
-            /* eliminate vars with rank > 1, coord vars only have rank 1 */
-            if ((*dp)->assoc->count == 1) {
+            /* eliminate vars with rank > 1, coord vars only have rank 1 and are defined on this dimension */
+            if ((*dp)->assoc->count == 1 && ((NC_dim **)handle->dims->values)[(*dp)->assoc->values[0]] == dim) {
                 if (namelen == (*dp)->name->len && strncmp(name, (*dp)->name->values, strlen(name)) == 0) {
                     /* because a dim was given, make sure that this is a coord var */
                     /* if it is an SDS, the function will fail */
